@@ -2306,6 +2306,9 @@ class Interp(object):
             return nm in ('bool', 'int', 'Integral', 'Number')
         if isinstance(v, int):
             return nm in ('int', 'Integral', 'Number', 'Real', 'Complex')
+        if isinstance(v, Rat) and 'I' in v.vars():
+            # a complex number (imaginary unit symbol I)
+            return nm in ('complex', 'Number', 'Complex')
         if isinstance(v, (Rat, Fr, float)):
             return nm in ('float', 'Number', 'Real', 'Complex')
         if isinstance(v, str):
